@@ -59,6 +59,13 @@ def run(ctx, res):
         cases.append((s, 2, 'valid', None))
     for _ in range(ctx.budget(150, 5000)):
         cases.append((C08.mutate(rng, gen_lua.gen_program(rng, style='spaced')[0]), 2, 'malformed', None))
+    # a valid program with one stray token at the very end / its last token deleted, with and without a final newline
+    for _ in range(ctx.budget(40, 1500)):
+        base = gen_lua.gen_program(rng, style=rng.choice(['spaced', 'lines', 'compact']))[0].rstrip(b' \t\r\n')
+        extra = rng.choice([b')', b'end', b'?', b'=', b']', b'}', b',', b'then', b'..', b'1 2', b'|= 1'])
+        cases.append((base + rng.choice([b' ', b'\n']) + extra + rng.choice([b'', b'', b'\n']), 2, 'malformed', None))
+    for s in (b'x = 1 )', b'x = 1 )\n', b'print(1)\nreturn 2\n?', b'function f()\n x = 1\nend\nend', b'a=1 end'):
+        cases.append((s, 2, 'malformed', None))
     for s in (b'a=b=c\n', b'a |= 1\nb=2\n', b'?x,y\n', b'x = 1 +\n', b'f(\n', b'a=1 )\nb=2\n', b'end\n', b'(f or g)(x)\n', b'a=(b or c).d\n', b'a=("s"):rep(2)\n'):
         cases.append((s, 2, 'malformed', None))
     outs = []
